@@ -25,7 +25,7 @@ pub const OPS: [Op; 13] = [Op::Add, Op::Sub, Op::Mul, Op::Div, Op::Frac, Op::Jux
 fn pow2(k: u32) -> BigRational { BigRational::from_integer(BigInt::from(2).pow(k)) }
 
 pub struct Huge;
-const MAX_BITS: u64 = 200_000;
+const MAX_BITS: u64 = 24_000; // keeps rendering of results (quadratic in digits) well inside the budget
 
 fn sz(v: &BigRational) -> u64 { v.numer().bits() + v.denom().bits() }
 
